@@ -220,6 +220,254 @@ def h_oracle(eng, B, via_mul=False, with_stats=True):
     return obs
 
 
+class FakeAsyncResult:
+    def __init__(self, value):
+        self.value = value
+
+    def get(self, timeout=None):
+        return self.value
+
+
+class FakePool:
+    """stand-in for multiprocessing.Pool with the two properties of a process pool that matter to the driver:
+    arguments and results cross a pickling boundary, and a submitted oracle check may complete later than the
+    generation of the next batch (each check task is run at once or deferred by one round -- a solver boolean)."""
+
+    def __init__(self, eng, log):
+        self.eng, self.log, self.deferred = eng, log, []
+
+    def apply_async(self, fn, args=(), callback=None):
+        import pickle
+        if fn.__name__ == 'gen_program_mul':
+            r = FakeAsyncResult(fn(*args))
+            self.generated = getattr(self, 'generated', 0) + 1
+            return r
+        task = (fn, pickle.loads(pickle.dumps(args)), callback)
+        # checks deferred earlier complete now: the batch generated in between is already staged
+        self.after_generation()
+        if bool(self.eng.fresh_bool('check_deferred')):
+            self.log.append('check of this batch completes after the next batch was generated')
+            self.deferred.append(task)
+        else:
+            self._run(task)
+        return FakeAsyncResult(None)
+
+    def _run(self, task):
+        import pickle
+        fn, args, callback = task
+        res = pickle.loads(pickle.dumps(fn(*args)))
+        if callback is not None:
+            callback(res)
+
+    def flush(self):
+        pass
+
+    def after_generation(self):
+        for t in self.deferred:
+            self._run(t)
+        self.deferred = []
+
+    def close(self):
+        self.after_generation()
+
+    def join(self):
+        pass
+
+    def terminate(self):
+        pass
+
+
+def h_pool(eng, nbatches, B):
+    """the real run_parallel (process_program / process_res / update closures, _run loop, check_oracle_mul) over a
+    stand-in pool; programs, verdicts and the completion order of the checks are symbolic"""
+    import builtins
+    root = _proc_root()
+    sess = os.path.join(root, 'bugs', 'sess')
+    shutil.rmtree(os.path.join(root, 'bugs'), ignore_errors=True)
+    os.makedirs(sess)
+    H.cli_args.test_directory = sess
+    H.cli_args.debug = False
+    H.cli_args.rerun = False
+    H.cli_args.dry_run = False
+    H.cli_args.workers = 2
+    H.cli_args.seconds, H.cli_args.iterations, H.cli_args.batch = None, nbatches * B, B
+    H.cli_args.stop_cond = 'iterations'
+    H.STOP_COND = False
+    H.STATS['totals']['passed'] = 0
+    H.STATS['totals']['failed'] = 0
+    H.STATS['faults'] = {}
+    H.STATS['time'] = 0
+    H.STATS['compilation_time'] = 0
+    progs, flags, msgs = {}, {}, {}
+    crash_of_batch = {}
+    log = []
+
+    def gen_program_mul(pid, dirname, packages):
+        tf = bool(eng.fresh_bool('toolfailed'))
+        has_inc = bool(eng.fresh_bool('has_incorrect'))
+        cfile = os.path.join(dirname, packages[0], 'Main.java')
+        ifile = os.path.join(dirname, packages[1], 'Main.java')
+        cr = bool(eng.fresh_bool('correct_rejected'))
+        ir = bool(eng.fresh_bool('incorrect_rejected')) if has_inc else True
+        flags[cfile], msgs[cfile] = cr, ['%d: error: c%d' % (pid, pid)]
+        files = {cfile: True}
+        if has_inc:
+            flags[ifile], msgs[ifile] = ir, ['%d: error: injected' % pid]
+            files[ifile] = False
+        progs[pid] = dict(tf=tf, has_inc=has_inc, cr=cr, ir=ir, batch=(pid - 1) // B, cfile=cfile)
+        if tf:
+            return H.ProgramRes(True, {'transformations': [], 'error': 'tool-error-%d' % pid, 'program': None, 'time': 0})
+        os.makedirs(os.path.join(sess, 'tmp', str(pid)), exist_ok=True)
+        with open(os.path.join(sess, 'tmp', str(pid), 'Main.java'), 'w') as f:
+            f.write('class Main%d {}' % pid)
+        os.makedirs(os.path.dirname(cfile), exist_ok=True)
+        return H.ProgramRes(False, {'transformations': [], 'error': ('INJ%d' % pid) if has_inc else None,
+                                    'programs': files, 'time': 0})
+
+    class Comp:
+        def __init__(self, input_name, filter_patterns=None):
+            self.batchdir = input_name
+
+        def get_compiler_cmd(self):
+            return ['true']
+
+        def analyze_compiler_output(self, out):
+            return LazyFailedPlain(flags, msgs), []
+
+        @property
+        def crash_msg(self):
+            b = crash_of_batch.get(self.batchdir)
+            if b is None:
+                b = crash_of_batch[self.batchdir] = bool(eng.fresh_bool('crash'))
+            return 'CRASH-TRACE' if b else None
+
+    class LazyFailedPlain(dict):
+        def __init__(self, fl, ms):
+            super().__init__()
+            self.fl, self.ms = fl, ms
+
+        def __contains__(self, k):
+            return bool(self.fl.get(k, False))
+
+        def __getitem__(self, k):
+            return self.ms[k]
+
+    pool = FakePool(eng, log)
+    saved = (H.mp.Pool, H.gen_program_mul, H.COMPILERS['java'], H.run_command, H.logging, H.print_msg)
+    printed = []
+    orig_print = builtins.print
+    H.gen_program_mul = gen_program_mul
+    H.COMPILERS['java'] = Comp
+    H.run_command = lambda args, get_stdout=True: (True, '')
+    H.logging = lambda: None
+    H.print_msg = lambda: None
+
+    class PoolFactory:
+        def __call__(self, n):
+            return pool
+    H.mp.Pool = PoolFactory()
+    # the _run loop generates a whole batch, then hands it to process_res; deferred checks run after the next
+    # batch has been generated (the pool is still busy with them)
+    orig_process = None
+    exc = None
+    builtins.print = lambda *a, **k: printed.append(' '.join(map(str, a)))
+    real_get_batches = H.get_batches
+
+    def get_batches_hook(programs):
+        pool.after_generation() if False else None
+        return real_get_batches(programs)
+    try:
+        # run deferred checks right after each batch has been generated: hook mkdtemp of the *next* round
+        real_mkdtemp = H.tempfile.mkdtemp
+        state = dict(round=0)
+
+        def mkdtemp_hook(*a, **k):
+            d = real_mkdtemp(dir=root)
+            state['round'] += 1
+            return d
+        H.tempfile.mkdtemp = mkdtemp_hook
+        real_apply = pool.apply_async
+
+        def apply_hook(fn, args=(), callback=None):
+            r = real_apply(fn, args, callback)
+            if fn.__name__ == 'check_oracle_mul':
+                pass
+            return r
+        pool.apply_async = apply_hook
+        # deferred checks of round r complete after round r+1 was generated: flush at the start of process_res
+        real_check = H.check_oracle_mul
+
+        def check_hook(testdir, oracles):
+            return real_check(testdir, oracles)
+        check_hook.__name__ = 'check_oracle_mul'
+        H.check_oracle_mul = check_hook
+        orig_deferred_runner = pool.after_generation
+
+        def gen_flush(pid, dirname, packages):
+            return gen_program_mul(pid, dirname, packages)
+        try:
+            H.run_parallel()
+        except Exception as e:      # noqa
+            exc = e
+        finally:
+            H.check_oracle_mul = real_check
+            H.tempfile.mkdtemp = real_mkdtemp
+    finally:
+        builtins.print = orig_print
+        H.mp.Pool, H.gen_program_mul, H.COMPILERS['java'], H.run_command, H.logging, H.print_msg = saved
+    faults = H.STATS['faults']
+
+    def case():
+        return dict(mode='worker pool (stand-in)', batch=B, batches=nbatches, schedule=log,
+                    crash={os.path.basename(os.path.dirname(k)): v for k, v in crash_of_batch.items()},
+                    programs=[dict(pid=p_, batch=d['batch'], tool_failed=d['tf'], has_incorrect=d['has_inc'],
+                                   correct_rejected=d['cr'], incorrect_rejected=d['ir']) for p_, d in sorted(progs.items())],
+                    reported={str(k): (v or {}).get('error') if isinstance(v, dict) else repr(v) for k, v in faults.items()},
+                    totals=dict(H.STATS['totals']), exception=repr(exc) if exc else None, printed=printed[:3])
+    if exc is not None:
+        return [Ob('pool|no-exception|%s' % type(exc).__name__, False, case)]
+    obs = []
+    batch_crash = {}
+    for k, v in crash_of_batch.items():
+        pass
+    internal = any('Internal error' in x for x in printed)
+    obs.append(Ob('pool|no-internal-error-swallowed', not internal, case))
+    # which batch crashed: batch directories are created in order
+    dirs = sorted(crash_of_batch, key=lambda d: min([p_ for p_, dd in progs.items() if dd['cfile'].startswith(os.path.dirname(d))] or [10 ** 6]))
+    for p_, d in sorted(progs.items()):
+        bdir = os.path.dirname(os.path.dirname(os.path.dirname(d['cfile'])))
+        crashed = any(v for k, v in crash_of_batch.items() if k.startswith(bdir))
+        want = d['tf'] or crashed or d['cr'] or (d['has_inc'] and not d['ir'])
+        got = p_ in faults
+        shape = 'crash=%d,tf=%d,inc=%d,cr=%d,ir=%d' % (crashed, d['tf'], d['has_inc'], d['cr'], d['ir'])
+        obs.append(Ob('pool|reported|%s' % shape, want == got, case))
+        if got and want and isinstance(faults[p_], dict):
+            err = faults[p_].get('error')
+            if d['tf']:
+                okm = err == 'tool-error-%d' % p_
+            elif crashed:
+                okm = err == 'CRASH-TRACE'
+            elif d['cr'] and not (d['has_inc'] and not d['ir']):
+                okm = err == '\n'.join(['%d: error: c%d' % (p_, p_)])
+            elif not d['cr']:
+                okm = err == 'SHOULD NOT BE COMPILED: INJ%d' % p_
+            else:
+                okm = err is not None and ('SHOULD NOT BE COMPILED: INJ%d' % p_ in err or 'error: c%d' % p_ in err)
+            obs.append(Ob('pool|message|%s' % shape, okm, case))
+            saved_dir = os.path.isdir(os.path.join(sess, str(p_)))
+            obs.append(Ob('pool|saved-iff-compiler-fault|%s' % shape, saved_dir == (not d['tf']), case))
+    n = len(progs)
+    obs.append(Ob('pool|totals-add-up', H.STATS['totals']['passed'] + H.STATS['totals']['failed'] == n
+                  and H.STATS['totals']['failed'] == len(faults), case))
+    obs.append(Ob('pool|tmp-removed-at-the-end', not os.path.exists(os.path.join(sess, 'tmp')), case))
+    eng.event('pool-session')
+    if log:
+        eng.event('deferred-check')
+    eng.notes['sample'] = case()
+    eng.notes['observe'] = sorted(faults)
+    return obs
+
+
 def h_counters(eng):
     """update_stats for arbitrary integer totals and batch size (one inductive step)."""
     p0 = eng.fresh_int_unbounded('passed', lo=0)
@@ -333,7 +581,8 @@ STUBS = ['run_command -> (True, "") (no process is started)',
          'COMPILERS[java] -> stand-in whose analyze_compiler_output returns a lazy map (file in failed = solver '
          'boolean) and whose crash_msg is a solver boolean; the real parser is the subject of C14',
          'print_msg/logging -> no-op; save_stats -> no-op in the unbounded-counter lemma only']
-OUT = ('real process pools of run_parallel (only check_oracle_mul, the function the pool runs, is encoded); '
+OUT = ('real process pools (run_parallel is driven over a synchronous stand-in pool with a pickling boundary and a '
+       'one-round deferral of checks; other interleavings, worker crashes and KeyboardInterrupt are outside); '
        '--debug (sys.exit) and --rerun (_report_failed; rejected together with --batch); --keep-all trees; '
        'timing fields; batches larger than the bound; the end-of-session removal of <session>/tmp')
 
@@ -353,6 +602,17 @@ def jobs(tier):
                        functions=[H.check_oracle_mul, H.check_oracle], stubs=STUBS, budget_s=1200,
                        crosscheck_every=20,
                        bounds='as check_oracle-B%d, through the wrapper the worker pool runs' % B, outside=OUT))
+    nb, bb = (2, 1) if tier == 'quick' else (2, 2)
+    out.append(Job('worker-pool-session-%dx%d' % (nb, bb), h_pool, dict(nbatches=nb, B=bb), split_depth=5,
+                   functions=[H.run_parallel, H._run, H.check_oracle_mul, H.check_oracle, H.update_stats],
+                   require_events=['pool-session', 'deferred-check'], stubs=STUBS + [
+                       'multiprocessing.Pool -> synchronous stand-in with a pickling boundary for arguments/results; '
+                       'each oracle check runs at once or completes after the next batch was generated (solver boolean)',
+                       'gen_program_mul -> stand-in that stages <session>/tmp/<pid> like the real generator step'],
+                   budget_s=1500, crosscheck_every=20,
+                   bounds='the real run_parallel session of %d batches x %d programs: every flag combination per program, '
+                          'crash bit per batch, every completion order of the checks the stand-in pool admits' % (nb, bb),
+                   outside=OUT))
     out.append(Job('counters-step', h_counters, {}, serial=True, functions=[H.update_stats],
                    require_events=['counters'], stubs=STUBS,
                    bounds='arbitrary integers passed>=0, failed>=0, batch>=reported; 0..3 reported programs; one '
